@@ -23,7 +23,9 @@ class FakeMutex:
     """threading.Lock contract; `held_by_other`: a thread of this process is inside the critical section (it can
     only be blocked in lockf there)."""
 
-    def __init__(self, held_by_other=False, on_release=None):
+    def __init__(self, held_by_other=False, on_release=None, on_gap=None):
+        self.sections = 0               # critical sections completed in this step
+        self.on_gap = on_gap            # rely: what other threads may have done between two critical sections
         self.held = held_by_other
         self.mine = False
         self.aborted = False
@@ -33,6 +35,10 @@ class FakeMutex:
 
     def acquire(self, blocking=True):
         if not self.held:
+            if self.sections and self.on_gap is not None:
+                # the step left its critical section and enters another one: in between, any other thread may have
+                # run complete critical sections of its own (rely condition of the atomic-section argument)
+                self.on_gap()
             self.held = True
             self.mine = True
             return True
@@ -49,6 +55,7 @@ class FakeMutex:
             raise RuntimeError('release unlocked lock')
         self.held = False
         self.mine = False
+        self.sections += 1
         if self.on_release is not None and not self.on_release():
             self.bad.append('invariant broken at the end of a critical section')
 
@@ -284,7 +291,7 @@ def p_exit__twin(cur: int, shared: bool, mutex_taken: bool,
 # ---------------------------------------------------------------------------------------------------------
 # R1: ThreadSafeKeyedRefPool
 
-def pool_enter(has: bool, rc: int, other: bool) -> bool:
+def pool_enter(has: bool, rc: int, other: bool, race: bool = False) -> bool:
     """
     pre: 1 <= rc <= 3
     post: _ == True
@@ -296,6 +303,19 @@ def pool_enter(has: bool, rc: int, other: bool) -> bool:
     if other:
         refs['o'] = ('OTHER', 1)
     live = [o for o, _ in refs.values()]
+    rival = []
+
+    def gap():
+        # rely: if the step is split into several critical sections, a rival thread may complete its own request for
+        # the same key in between (it finds no entry, creates its object, becomes a user of it)
+        if race and not rival:
+            rival.append(1)
+            e = refs.get('k')
+            if e is None:
+                refs['k'] = ('RIVAL', 1)
+                live.append('RIVAL')
+            else:
+                refs['k'] = (e[0], e[1] + 1)
 
     def factory(k):
         made.append(k)
@@ -305,16 +325,25 @@ def pool_enter(has: bool, rc: int, other: bool) -> bool:
     def destroy(o):
         destroyed.append(o)
         live.remove(o)
-    mutex = FakeMutex(on_release=lambda: sorted(map(str, live)) == sorted(str(o) for o, _ in refs.values()))
+    # the invariant is demanded at the end of the LAST critical section of the step (a step made of several sections
+    # may publish intermediate states; what it may not do is destroy an object while the key has users)
+    mutex = FakeMutex(on_release=lambda: sorted(map(str, live)) == sorted(str(o) for o, _ in refs.values()), on_gap=gap)
     pool = L.ThreadSafeKeyedRefPool(mutex, refs, factory, destroy)
     cm = pool('k')
     obj = cm.__enter__()
     if destroyed or mutex.bad:
+        # R1: an object of a key is destroyed only when its last user leaves; here the key has at least one user
+        # (for the fd pool: closing ANY descriptor of the file drops the process's kernel lock)
+        return False
+    if sorted(map(str, live)) != sorted(str(o) for o, _ in refs.values()):
         return False
     if other and refs.get('o') != ('OTHER', 1):
         return False
     if pool._lock.held:
         return False
+    if rival:
+        # the rival's reference is still counted and both users got the object of the pool entry
+        return refs['k'][1] == (rc + 2 if has else 2) and obj == refs['k'][0]
     if has:
         return made == [] and obj == 'OBJ' and refs['k'] == ('OBJ', rc + 1)
     return made == ['k'] and obj == ('NEW', 'k') and refs['k'] == (obj, 1)
@@ -358,12 +387,12 @@ def pool_exit(rc: int, other: bool) -> bool:
     return refs['k'] == (obj, rc - 1) and destroyed == []
 
 
-def pool_enter__twin(has: bool, rc: int, other: bool) -> bool:
+def pool_enter__twin(has: bool, rc: int, other: bool, race: bool = False) -> bool:
     """
     pre: 1 <= rc <= 3
     post: _ == True
     """
-    return not pool_enter(has, rc, other)
+    return not pool_enter(has, rc, other, race)
 
 
 def pool_exit__twin(rc: int, other: bool) -> bool:
